@@ -34,8 +34,8 @@ TECHNIQUE = "runtime contract (icontract snapshot + postcondition) with brute-fo
 ASSUMPTIONS = ["R-words; the C02 monitor's assumptions"]
 N = {"quick": 6, "thorough": 8}
 FLOORS = {
-    "quick": {"nontrivial": 200, "counters": {"expand.calls_checked": 300, "expand.classes_expanded": 400,
-                                               "spec.specs_examined": 800,
+    "quick": {"nontrivial": 200, "counters": {"expand.calls_checked": 250, "expand.classes_expanded": 300,
+                                               "spec.specs_examined": 600,
                                                "expand.verified_behind_equivalence_path": 15}},
     "thorough": {"nontrivial": 2000, "counters": {"expand.calls_checked": 3600, "expand.classes_expanded": 7000,
                                                    "expand.retries_with_reverse": 1}},
